@@ -2,7 +2,7 @@ package main
 
 func init() {
 	register("C11", &propDef{
-		Level: "other",
+		Level:   "other",
 		Explain: "Table clause decided exhaustively and exactly on the constant tables extracted (A1) from the compiled getters on every run: T1 every range entry is a listed id in list spelling, T2 at exactly one position, T3 family shape and strictly ascending natural version order, T4 completeness for every covered (prefix, variant) signature. Code clause by structural rules T5-T8 (positions are the loop indices, first match returns, family gate dominates every version comparison, direction of the + cell, tables rebuilt per call). Nothing is executed.",
 		Run: func(p *Prog, r *Report) {
 			t, err := p.LoadTables()
